@@ -351,7 +351,7 @@ fn judge<T: App>(law: &str, lhs: &E, rhs: &E, env: [T::Raw; 3], arity: usize, or
     let mr = eval_model::<T>(rhs, &env);
     acc.st.nontrivial(&(T::NAME, law, format!("{:?}", &env[..arity])));
     let vars = format!("{:?}", &env[..arity]);
-    let mut hit = |kind: &str, text: String, acc: &mut Acc| {
+    let hit = |kind: &str, text: String, acc: &mut Acc| {
         let envs: Vec<String> = env.iter().map(|x| format!("{x:?}")).collect();
         acc.cl.hit(&format!("semiring::{}/{law}/{kind}", T::NAME), order, || {
             (
